@@ -170,6 +170,12 @@ for _order in (("z", "p", "q"), ("p", "z", "q"), ("p", "q", "z")):
         '@loop("L3")\nflow z\n  match E(k=1)\n  start ActZAction()\n  match E(k=1)\n  send ReplyZ()\n  match Never()\n\n'
         "flow main\n" + "".join(f"  start {f}\n" for f in _order) + "  match Never()\n", [])
 
+# an instance uid chosen by the program (optional argument of StartFlow) that is used a second time
+MAINS["instance-uid-used-twice"] = (
+    "flow worker\n  match Job()\n  send Done()\n  match Job()\n\n"
+    "flow main\n  match Go()\n  send StartFlow(flow_id=\"worker\", flow_instance_uid=\"w1\")\n  match Go()\n"
+    "  send StartFlow(flow_id=\"worker\", flow_instance_uid=\"w1\")\n  match Go()\n  send StartFlow(flow_id=\"worker\", flow_instance_uid=\"w2\")\n  match Never()\n", [])
+
 UTTERANCES = ["hi", "bye", "go", "stop", "zzz"]
 
 
@@ -178,6 +184,8 @@ def alphabet_for(name):
     fixed.append(("ext", "Done", {}))
     if name == "core-or-when":
         fixed.append(("ext", "UtteranceUserActionStarted", {}))
+    if name == "instance-uid-used-twice":
+        fixed = [("ext", "Go", {}), ("ext", "Job", {}), ("ext", "X", {})]
     if name.startswith("cascade-three-loops"):
         fixed = [("ext", "E", {"k": 1, "m": 2}), ("ext", "E", {"k": 1}), ("ext", "X", {})]
     if name == "notation-zoo":
@@ -242,6 +250,7 @@ def explore(task):
 def tasks(tier):
     heavy = {"core-dialog": (4, 6), "guardrails-io": (5, 7), "notation-zoo": (4, 5)}
     heavy.update({n: (3, 4) for n in MAINS if n.startswith("cascade-three-loops")})
+    heavy["instance-uid-used-twice"] = (6, 7)
     out = []
     for n in MAINS:
         q, t = heavy.get(n, (8, 11))
